@@ -85,7 +85,9 @@ func cqState(q *kapacitor.CircularQueue[int]) string {
 // ------------------------------------------------------------------------------------------------
 // pipeline nodes from TICKscript
 
-func tickStr(s string) string { return "'" + strings.ReplaceAll(strings.ReplaceAll(s, `\`, `\\`), `'`, `\'`) + "'" }
+func tickStr(s string) string {
+	return "'" + strings.ReplaceAll(strings.ReplaceAll(s, `\`, `\\`), `'`, `\'`) + "'"
+}
 
 func parentsScript(n int, batch bool) string {
 	var b strings.Builder
@@ -544,12 +546,26 @@ func execCase(ops []string) (out []string) {
 				guard(line, func() string { ms, err := r.jn.Finish(); return r.joinOut(ms, err, true) })
 			}
 		case "task":
+			if t[1] == "w" && r.tasks != nil {
+				// oracle value: the group ID the from()/groupBy() nodes give the point (models.ToGroupID, C06's subject)
+				m := kv(t[4:])
+				m["name"], m["dims"], m["byname"] = fmt.Sprintf("m%s", t[2]), list(escAll(r.tasks.dims)), "0"
+				line = stripKey(line, "grp") + " grp=" + kit.Esc(string(mkPoint(m, 0).GroupID()))
+			}
 			guard(line, func() string { return r.taskOp(t) })
 		default:
 			out = append(out, line)
 		}
 	}
 	return out
+}
+
+func escAll(xs []string) []string {
+	var o []string
+	for _, x := range xs {
+		o = append(o, kit.Esc(x))
+	}
+	return o
 }
 
 func stripKey(line, key string) string {
